@@ -86,16 +86,13 @@ class CollectiveAnomalyDetector(BaseDetector):
         # The sparse format only uses integer positions, so we reset the index.
         y_dense = y_dense["labels"].reset_index(drop=True)
 
-        y_anomaly = y_dense.loc[y_dense.values > 0]
-        anomaly_locations_diff = y_anomaly.index.diff()
-
-        first_anomaly_start = y_anomaly.index[:1].to_numpy()
-        anomaly_starts = y_anomaly.index[anomaly_locations_diff > 1]
-        anomaly_starts = np.insert(anomaly_starts, 0, first_anomaly_start)
-
-        last_anomaly_end = y_anomaly.index[-1:].to_numpy() + 1
-        anomaly_ends = y_anomaly.index[np.roll(anomaly_locations_diff > 1, -1)] + 1
-        anomaly_ends = np.insert(anomaly_ends, len(anomaly_ends), last_anomaly_end)
+        # Anomalies are delimited by changes of the label, so that adjacent anomalies
+        # with different labels are kept apart.
+        labels = y_dense.to_numpy()
+        is_start = (labels > 0) & (np.diff(labels, prepend=0) != 0)
+        is_end = (labels > 0) & (np.diff(labels, append=0) != 0)
+        anomaly_starts = np.flatnonzero(is_start)
+        anomaly_ends = np.flatnonzero(is_end) + 1
 
         anomaly_intervals = list(zip(anomaly_starts, anomaly_ends))
         return CollectiveAnomalyDetector._format_sparse_output(
